@@ -65,6 +65,24 @@ def generate(ctx):
         cs.append(make_case(cid, gen.layout(rng, [("ref", ref)]), gen.layout(rng, recs),
                             {"kind": "random", "nontrivial": nt}))
         cid += 1
+    # one alignment wider than 65,536 columns: ambiguity runs that cross column 65,536, lie beyond it and end the sequence, SNPs on
+    # both sides (positions and range bounds are whole numbers of any size); drawn from a PRNG of its own
+    import random
+    wr = random.Random(4242 + ctx.seed)
+    W = 70000
+    wref = "".join(wr.choice("ACGT") for _ in range(W))
+    wide = []
+    for i in range(2):
+        sq = list(wref)
+        for a, b in ((65530 - i, 65545 + i), (66000, 66000), (69990, W - 1 if i == 0 else 69995), (10, 12)):
+            for j in range(a, b + 1):
+                sq[j] = wr.choice("NRY-")
+        for j in wr.sample(range(W), 6) + [65535, 65536, 65537]:
+            if sq[j] in "ACGT":
+                sq[j] = wr.choice([c for c in "ACGT" if c != wref[j]])
+        wide.append(("wide%d" % i, "".join(sq)))
+    cs.append(make_case(cid, gen.layout(wr, [("ref", wref)], "plain"), gen.layout(wr, wide, "plain"), {"kind": "wide", "nontrivial": True}))
+    cid += 1
     for _ in range(20 if ctx.tier == "quick" else 200):
         ref = gen.rand_seq(rng, 6)
         recs = [(gen.rand_name(rng, i), runs_seq(rng, ref)) for i in range(rng.randint(1, 3))]
